@@ -60,8 +60,11 @@ func defaultCfg(tier string, scratch string) Config {
 	return c
 }
 
+var runDeadline time.Time
+
 func cfgFor(h *Harness, tier, scratch string) Config {
 	cfg := defaultCfg(tier, scratch)
+	cfg.Deadline = runDeadline
 	switch h.Backend {
 	case "int":
 		cfg.Backend = smt.BackendCVC5Int
@@ -92,6 +95,10 @@ func cfgFor(h *Harness, tier, scratch string) Config {
 // RunProperty runs every harness of a property and returns the process exit code.
 func RunProperty(o RunOpts) int {
 	t0 := time.Now()
+	runDeadline = t0.Add(9 * time.Minute)
+	if o.Tier == "thorough" {
+		runDeadline = t0.Add(4 * time.Hour)
+	}
 	if o.Workers <= 0 {
 		o.Workers = runtime.NumCPU()
 	}
@@ -164,6 +171,12 @@ func RunProperty(o RunOpts) int {
 		for j := range jobs {
 			func() {
 				defer pending.Done()
+				if time.Now().After(runDeadline) {
+					mu.Lock()
+					aggs[j.h.Name].errs = append(aggs[j.h.Name].errs, "run deadline reached before this exploration job started")
+					mu.Unlock()
+					return
+				}
 				ag := aggs[j.h.Name]
 				ex := cache[j.h.Name]
 				if ex == nil {
